@@ -1991,9 +1991,16 @@ class PrepareAst:
                         assert isinstance(kwdict, dict)
 
                         for name, value in kwdict.items():
+                            assert isinstance(name, str), "keywords must be strings"
+                            assert (
+                                name not in kwarg_expr
+                            ), f"got multiple values for keyword argument '{name}'"
                             kwarg_expr[name] = out.Value(value, [])
                     else:
                         assert isinstance(kwarg.arg, str)
+                        assert (
+                            kwarg.arg not in kwarg_expr
+                        ), f"got multiple values for keyword argument '{kwarg.arg}'"
                         kwarg_expr[kwarg.arg] = expr
 
                 args: list[Any] = [expr.result() for expr in arg_expr]
